@@ -106,7 +106,7 @@ class CanonicalCriteria(BaseCriteria):
         )
 
         return context.rng.random() < math.exp(
-            -energy_difference / (context.temperature * kB)
+            min(-energy_difference / (context.temperature * kB), 0.0)
         )
 
 
@@ -136,7 +136,7 @@ class HamiltonianCanonicalCriteria(BaseCriteria):
         )
 
         return context.rng.random() < math.exp(
-            -energy_difference / (context.temperature * kB)
+            min(-energy_difference / (context.temperature * kB), 0.0)
         )
 
 
@@ -166,9 +166,12 @@ class IsobaricCriteria(BaseCriteria):
         old_volume = context.last_cell.volume
 
         return context.rng.random() < math.exp(
-            -(energy_difference + context.pressure * (current_volume - old_volume))
-            / temperature
-            + (len(atoms) + 1) * np.log(current_volume / old_volume)
+            min(
+                -(energy_difference + context.pressure * (current_volume - old_volume))
+                / temperature
+                + (len(atoms) + 1) * np.log(current_volume / old_volume),
+                0.0,
+            )
         )
 
 
@@ -214,8 +217,12 @@ class IsotensionCriteria(BaseCriteria):
         )
 
         return context.rng.random() < math.exp(
-            -(energy_difference + elastic_energy) / temperature
-            + (len(atoms) + 1) * np.log(atoms.get_volume() / context.last_cell.volume)
+            min(
+                -(energy_difference + elastic_energy) / temperature
+                + (len(atoms) + 1)
+                * np.log(atoms.get_volume() / context.last_cell.volume),
+                0.0,
+            )
         )
 
 
@@ -274,5 +281,9 @@ class GrandCanonicalCriteria(BaseCriteria):
             particle_delta * context.chemical_potential - energy_difference
         ) / (context.temperature * kB)
 
-        criteria = math.exp(exponential)
-        return context.rng.random() < criteria * prefactor
+        if prefactor <= 0:
+            return False
+
+        return context.rng.random() < math.exp(
+            min(exponential + math.log(prefactor), 0.0)
+        )
